@@ -48,6 +48,7 @@ func (eval Evaluator) ExternalProduct(op0 *rlwe.Ciphertext, op1 *Ciphertext, opO
 		c0QP, c1QP = eval.BuffQP[1], eval.BuffQP[2]
 	} else {
 		c0QP, c1QP = ringqp.Poly{Q: opOut.Value[0], P: eval.BuffQP[1].P}, ringqp.Poly{Q: opOut.Value[1], P: eval.BuffQP[2].P}
+		*opOut.MetaData = *op0.MetaData
 	}
 
 	if levelP < 1 {
